@@ -6,7 +6,7 @@ Steps (DESIGN.md 2.4): build (translator + make + extraction + driver) ->
 proof status of Props/<ID>.v -> correspondence / checker run -> verdict ->
 evidence/<ID>.json.
 """
-import os, sys, re, json, time, argparse, subprocess, importlib, collections
+import os, sys, re, json, time, argparse, subprocess, importlib, collections, random
 sys.path.insert(0, os.path.dirname(os.path.abspath(__file__)))
 import common
 from common import VERIF, REPO
@@ -113,6 +113,54 @@ def proof_status(pid, extra_files=()):
                 assumptions=assumptions, cmd=' ; '.join(cmds), log='\n'.join(logs))
 
 
+def sx_to_coq(v):
+    if isinstance(v, int):
+        return '(A (%d))' % v
+    return '(L [%s])' % '; '.join(sx_to_coq(x) for x in v)
+
+
+def kernel_crosscheck(pid, n):
+    """Re-evaluate a sample of the cases the extracted OCaml model answered INSIDE Coq (vm_compute on the very definitions
+    the theorems are about) and compare: extraction, the OCaml compiler and the driver's parser / printer are then not trusted
+    blindly.  Returns (checked, ok, detail)."""
+    sample = list(common.MODEL_SAMPLE)
+    random.Random(7).shuffle(sample)
+    sample = sample[:n]
+    if not sample:
+        return 0, True, 'no model cases in this run'
+    items = []
+    for line, outl in sample:
+        u, _, rest = line.partition(' ')
+        try:
+            items.append('(%s, %s, %s)' % ('(%d)' % int(u), sx_to_coq(common.parse_sx(rest)), sx_to_coq(common.parse_sx(outl))))
+        except Exception:   # noqa
+            continue
+    src = ('From Coq Require Import ZArith List Bool.\nFrom VL Require Import Prelude.Sx Prelude.GDict Model.Dispatch.\n'
+           'Import ListNotations.\nOpen Scope Z_scope.\n'
+           'Definition cases : list (Z * sx * sx) := [\n%s].\n'
+           'Definition bad := filter (fun c => negb (sx_eqb (dispatch (fst (fst c)) (snd (fst c))) (snd c))) cases.\n'
+           'Eval vm_compute in (length cases, length bad).\n' % ';\n'.join(items))
+    path = os.path.join(COQ, 'cases_%s.v' % pid)
+    open(path, 'w').write(src)
+    try:
+        rc, out = sh('timeout 600 coqc -Q . VL cases_%s.v' % pid, timeout=700, cwd=COQ)
+    finally:
+        for ext in ('.v', '.vo', '.vok', '.vos', '.glob'):
+            try:
+                os.remove(os.path.join(COQ, 'cases_%s%s' % (pid, ext)))
+            except OSError:
+                pass
+        try:
+            os.remove(os.path.join(COQ, '.cases_%s.aux' % pid))
+        except OSError:
+            pass
+    m = re.search(r'=\s*\((\d+)%nat,\s*(\d+)%nat\)', out) or re.search(r'=\s*\((\d+),\s*(\d+)\)', out)
+    if rc != 0 or not m:
+        return len(items), False, 'coqc failed on the cross-check file: ' + out[-400:]
+    total, badn = int(m.group(1)), int(m.group(2))
+    return total, badn == 0, '%d of %d sampled cases evaluate differently inside Coq' % (badn, total)
+
+
 def load_known():
     p = os.path.join(VERIF, 'known_findings.json')
     if not os.path.exists(p):
@@ -174,6 +222,33 @@ def main():
     if ctx.broken_items:
         widen = 4      # a proof/tie broke: widen the search for a concrete failing input
     mod.explore(ctx, widen)
+
+    # 3b. extraction cross-check inside the kernel
+    try:
+        kc = kernel_crosscheck(pid, 40 if tier == 'quick' else 300)
+    except Exception as e:   # noqa
+        kc = (0, False, 'cross-check could not run: %r' % e)
+    ctx.kernel_check = dict(cases=kc[0], agree=kc[1], detail=kc[2])
+    if not kc[1]:
+        ctx.broken('extraction', 'extracted model and in-Coq evaluation (vm_compute) disagree or the cross-check failed: %s' % kc[2])
+
+    # 3c. thorough tier: independent re-check of the compiled cone with coqchk, axioms as it reports them
+    if tier == 'thorough':
+        mods = ['VL.Props.%s' % pid] + ['VL.' + f[:-2].replace('/', '.') for f in extra]
+        rc, out = sh('timeout 1500 coqchk -silent -o -Q . VL %s' % ' '.join(mods), timeout=1600, cwd=COQ)
+        m = re.search(r'\* Axioms:(.*?)\n\s*\n\* Constants/Inductives relying on type-in-type:(.*?)\n\s*\n\* Constants/Inductives relying on unsafe \(co\)fixpoints:(.*?)\n\s*\n\* Inductives whose positivity is assumed:(.*?)\n', out + '\n\n', re.S)
+        if rc != 0 or not m:
+            ctx.coqchk = dict(ok=False, output=out[-600:])
+            ctx.broken('coqchk', 'coqchk did not accept the compiled development: %s' % out[-600:])
+        else:
+            fields = [' '.join(x.split()) for x in m.groups()]
+            ctx.coqchk = dict(ok=True, modules=mods, axioms=fields[0], type_in_type=fields[1], unsafe_fixpoints=fields[2], assumed_positivity=fields[3])
+            if fields[0] != '<none>':
+                used = set(re.findall(r'([A-Za-z0-9_\.\']+)\s*:', fields[0])) or set(fields[0].split())
+                if not used <= allowed_axioms():
+                    ctx.broken('coqchk', 'coqchk reports axioms outside trusted_axioms.txt: %s' % fields[0])
+            if fields[1:] != ['<none>'] * 3:
+                ctx.broken('coqchk', 'coqchk reports switched-off checks: %s' % fields[1:])
 
     # 4/5. verdict + evidence
     return ctx.finish(t0)
@@ -313,6 +388,8 @@ class Ctx:
             known_findings_hit=dict(self.known_hits),
             broken=[b[0] for b in self.broken_items], notes=self.notes,
             exhaustive=self.exhaustive,
+            extraction_crosscheck=getattr(self, 'kernel_check', None),
+            coqchk=getattr(self, 'coqchk', 'thorough tier only'),
         )
         if level == 'translation_validation':
             cov['programs'] = self.evaluations
@@ -334,7 +411,7 @@ class Ctx:
 
 TRUSTED_COMMON = [
     'Coq 8.16.1 kernel (coqc; coqchk in the thorough tier); vm_compute used in closed-term lemmas; no native_compute',
-    'extraction: Require Extraction + ExtrOcamlBasic only (Extract Inductive bool/option/unit/list/prod/sumbool/sumor); Z/positive/Q stay extracted inductives; ocamlfind ocamlopt 4.13.1',
+    'extraction: Require Extraction + ExtrOcamlBasic only (Extract Inductive bool/option/unit/list/prod/sumbool/sumor); Z/positive/Q stay extracted inductives; ocamlfind ocamlopt 4.13.1; a random sample of the cases of every run is re-evaluated inside Coq with vm_compute and compared (coverage.extraction_crosscheck)',
     'ocaml/driver.ml: s-expression reader/printer, decimal<->binary conversion through zarith',
     'harness/: case generation, encoding of Python values as wire values, canonicalisation, exception enum',
     'tools/py2v.py translator and Prelude/PyNum.v reading of CPython numerics (generated units only)',
